@@ -12,7 +12,8 @@ use std::collections::HashMap;
 use std::sync::atomic::{AtomicU64, Ordering};
 use std::sync::{Arc, Mutex};
 
-const NAMES: [&str; 3] = ["k1", "second key", "Zo\u{eb}"];
+/// what is typed at the "Key name:" prompt (the tool trims it)
+const NAMES: [&str; 5] = ["k1", "second key", "Zo\u{eb}", "x-k1", "  padded \u{a0}"];
 const PASSWORDS: [&str; 3] = ["", "pw", "p\u{e4}"];
 
 /// (initial file state, then (name index, password index) per key generation)
@@ -93,9 +94,20 @@ fn step(ctx: &Ctx, h: &Hist) -> Result<Option<Vec<u8>>, String> {
         Class::WellFormed(e) => e,
         other => return Err(format!("REF does not read the file as a well-formed keyring: {:?}", other)),
     };
+    // the name text the tool wrote for the newest key (from the bytes it appended) must be the name the parser returns
+    {
+        let appended = String::from_utf8_lossy(&after[before.as_ref().map(|b| b.len()).unwrap_or(0)..]).to_string();
+        let written: Vec<&str> = appended.lines().filter_map(|l| l.strip_prefix("Name = ")).collect();
+        if written.len() != 1 {
+            return Err(format!("the appended text does not contain exactly one 'Name = ' line: {:?}", appended));
+        }
+        if kr.get_key(written[0]).is_none() {
+            return Err(format!("the name was written as {:?} but the keyring has no entry under that name (it does not read back as written)", written[0]));
+        }
+    }
     // 3. every key generated so far is present and usable with its own password
     for (gi, &(n, p)) in h.gens.iter().enumerate() {
-        let name = NAMES[n as usize];
+        let name = NAMES[n as usize].trim();
         let k = kr.get_key(name).ok_or(format!("key '{}' (generated by command {}) is no longer in the keyring", name, gi + 1))?;
         let e = entries.iter().find(|e| e.name == name).ok_or(format!("REF: key '{}' missing", name))?;
         if k.public_key.as_str() != e.pk {
@@ -191,7 +203,7 @@ impl Model for M {
 }
 
 pub fn run(rep: &'static Report) {
-    rep.set_rule("E-GRAPH over histories: breadth-first search (stateright) over initial keyring states x all sequences of <=2 (quick) / <=3 (thorough) `kestrel key generate -o F --env-pass` commands with distinct names from a 3-name alphabet (one non-ASCII, one with a space) and 3 passwords; each state's last command is executed by the real CLI on the memoised file of its parent history, and the state invariant (prefix preserved, parses for the real parser and for REF, every generated key present, unlocks under its own password to the private key of its PublicKey, pre-existing entries kept) is checked. distinct non-trivial = histories with at least one generation");
+    rep.set_rule("E-GRAPH over histories: breadth-first search (stateright) over initial keyring states x all sequences of <=2 (quick) / <=3 (thorough) `kestrel key generate -o F --env-pass` commands with distinct names from a 5-name alphabet (one non-ASCII, one with a space, one that is a suffix of another, one typed with surrounding whitespace) and 3 passwords; each state's last command is executed by the real CLI on the memoised file of its parent history, and the state invariant (prefix preserved, parses for the real parser and for REF, every generated key present, unlocks under its own password to the private key of its PublicKey, pre-existing entries kept) is checked. distinct non-trivial = histories with at least one generation");
     rep.assume("CLI runs use the real CSPRNG, so bytes differ between runs; a violating history is executed twice and the verdict must not flip");
     let ctx = Arc::new(Ctx { rep, seed: rep.seed, max_gens: rep.tier.pick(2, 3), inits: initial_states(rep.seed), memo: Mutex::new(HashMap::new()), executed: AtomicU64::new(0) });
     let _ = ctx.seed;
